@@ -5,7 +5,7 @@ PROP = {
     "props_module": "FV.Props.C06",
     "generate": [V.generate_locks, V.generate_params],
     "builders": {"rt": V.build_rt},
-    "suites": [("rt", "c01reg", {"quick": 6000, "thorough": 1500000}), ("rt", "c06free", {"quick": 40000, "thorough": 4000000}), ("rt", "c01nats", {"quick": 150, "thorough": 20000})],
+    "suites": [("rt", "c06reopen", {"quick": 120, "thorough": 4000}), ("rt", "c01reg", {"quick": 6000, "thorough": 1500000}), ("rt", "c06free", {"quick": 40000, "thorough": 4000000}), ("rt", "c01nats", {"quick": 150, "thorough": 20000})],
     "rule": "as C01/c01reg; additionally the watchdog outcome `blocked` of the reader's Execute per injected frame, compared with the model's enabledness.",
     "trusted": ["harness/locks (go/ast, lexical, no type checker) regenerates FV/Generated/Locks.lean: per function the mutexes it locks, the calls it makes under a lock, re-locks and returns with a lock held; calls through interfaces / function values / other packages are not followed; FBaseProcessorFunction.writeMu is taken to be FBaseProcessor.writeMu", "Modelled, not verified: Go channels (buffered send/receive, select), sync.RWMutex atomicity of Register/Unregister/lookup, goroutine scheduling; one Action = one statement group that is atomic in the code (checked by schedule forcing at the yield point registry.dispatch.presend)"] + ["harness/extract (go/ast) regenerates FV/Generated/Params.lean: dispatch send blocking?, result channel capacities, `go f.send`, deferred Unregister"],
     "level_text": "Theorems: in every reachable state (any callers, any history of duplicates / unknown ids / late frames / timeouts / unregisters) the reader's next step is enabled — it never blocks (for the non-blocking dispatch send the code has, a fact regenerated from registry.go on every run); a fresh response is delivered to a waiting caller in two reader steps whatever preceded; bounded reader work per frame; and the counterexample theorem for a blocking send (the defect repaired by fix 77df394).",
